@@ -105,6 +105,7 @@ type vfC18Rev struct {
 	Parent  string
 	Deleted bool
 	Body    vfC18Body
+	Late    bool // written (still under A) after every user was loaded once
 }
 
 type vfC18Doc struct {
@@ -126,6 +127,9 @@ type vfC18Spec struct {
 	Users []vfC18Principal
 	Roles []vfC18Principal // existing roles only
 	Docs  []vfC18Doc
+	// Reload: users loaded again after the late writes; the others go into the resync with whatever
+	// channel and/or role invalidation the late writes left pending.
+	Reload []string
 }
 
 type vfC18Eval struct {
@@ -460,6 +464,15 @@ func (s *vfC18Spec) classify() (nontrivial bool, classes []string) {
 		}
 		classes = append(classes, "doc:"+d.Kind)
 	}
+	nlate := 0
+	for _, d := range s.Docs {
+		for _, r := range d.Revs {
+			if r.Late {
+				nlate++
+			}
+		}
+	}
+	classes = append(classes, fmt.Sprintf("late-writes=%d", nlate), fmt.Sprintf("users-not-reloaded=%d", len(s.Users)-len(s.Reload)))
 	classes = append(classes, fmt.Sprintf("regen=%v", s.Regen), fmt.Sprintf("defaultCollection=%v", s.Deflt), fmt.Sprintf("docs=%d", len(s.Docs)))
 	if shaped {
 		classes = append(classes, "corpus-has-conflicted-or-tombstoned-granting-doc")
@@ -509,13 +522,23 @@ func (s *vfC18Spec) render() string {
 	for _, u := range s.Users {
 		ops = append(ops, fmt.Sprintf("user(%s chans=%s roles=%s)", u.Name, vfJoin(u.Chans), vfJoin(u.Roles)))
 	}
-	for _, d := range s.Docs {
-		for _, r := range d.Revs {
-			if r.Deleted {
-				ops = append(ops, fmt.Sprintf("rev(%s %s<-%q deleted)", d.ID, r.ID, r.Parent))
-			} else {
-				ops = append(ops, fmt.Sprintf("rev(%s %s<-%q %s)", d.ID, r.ID, r.Parent, r.Body))
+	for _, late := range []bool{false, true} {
+		for _, d := range s.Docs {
+			for _, r := range d.Revs {
+				if r.Late != late {
+					continue
+				}
+				if r.Deleted {
+					ops = append(ops, fmt.Sprintf("rev(%s %s<-%q deleted)", d.ID, r.ID, r.Parent))
+				} else {
+					ops = append(ops, fmt.Sprintf("rev(%s %s<-%q %s)", d.ID, r.ID, r.Parent, r.Body))
+				}
 			}
+		}
+		if !late {
+			ops = append(ops, "loadEveryUser")
+		} else {
+			ops = append(ops, "reloadUsers"+vfJoin(s.Reload))
 		}
 	}
 	return strings.Join(ops, "; ")
@@ -635,6 +658,20 @@ func vfC18GenDoc(rt *rapid.T, id string, n *int) vfC18Doc {
 	return d
 }
 
+func vfC18AddLate(rt *rapid.T, d *vfC18Doc, parent string, deleted bool, n *int) {
+	*n++
+	g := 1
+	if parent != "" {
+		pg, _ := vfC18ParseRev(parent)
+		g = pg + 1
+	}
+	r := vfC18Rev{ID: fmt.Sprintf("%d-%s%d", g, rapid.SampledFrom([]string{"a", "c", "e"}).Draw(rt, "digest"), *n), Parent: parent, Deleted: deleted, Late: true}
+	if !deleted {
+		r.Body = vfC18GenBody(rt, *n)
+	}
+	d.Revs = append(d.Revs, r)
+}
+
 func vfC18GenSpec(rt *rapid.T) *vfC18Spec {
 	s := &vfC18Spec{}
 	s.Deflt = rapid.Bool().Draw(rt, "defaultCollection")
@@ -649,10 +686,40 @@ func vfC18GenSpec(rt *rapid.T) *vfC18Spec {
 	for _, u := range vfC18Users {
 		s.Users = append(s.Users, vfC18Principal{Name: u, Chans: vfC18GenSubset(rt, "userChans", vfC18Channels, 1), Roles: vfC18GenSubset(rt, "userRoles", vfC18Roles, 1)})
 	}
-	nd := rapid.IntRange(1, 6).Draw(rt, "ndocs")
+	nd := rapid.IntRange(1, 5).Draw(rt, "ndocs")
 	n := 0
 	for i := 0; i < nd; i++ {
 		s.Docs = append(s.Docs, vfC18GenDoc(rt, fmt.Sprintf("d%d", i+1), &n))
+	}
+	// late writes: ordinary writes under A after every user was loaded (update or delete of a live
+	// leaf, resurrection, one possible new document), then a subset of the users is loaded again
+	for i := range s.Docs {
+		if rapid.IntRange(0, 2).Draw(rt, "lateWrite") == 0 {
+			continue
+		}
+		d := &s.Docs[i]
+		parent := d.winner()
+		var live []*vfC18Rev
+		for _, l := range d.leaves() {
+			if !l.Deleted {
+				live = append(live, l)
+			}
+		}
+		if len(live) > 1 {
+			parent = live[rapid.IntRange(0, len(live)-1).Draw(rt, "lateLeaf")]
+		}
+		deleted := !parent.Deleted && rapid.IntRange(0, 3).Draw(rt, "lateDelete") == 0
+		vfC18AddLate(rt, d, parent.ID, deleted, &n)
+	}
+	if rapid.IntRange(0, 2).Draw(rt, "lateDoc") == 0 {
+		d := vfC18Doc{ID: fmt.Sprintf("d%d", nd+1), Kind: "late-new"}
+		vfC18AddLate(rt, &d, "", false, &n)
+		s.Docs = append(s.Docs, d)
+	}
+	for _, u := range vfC18Users {
+		if rapid.IntRange(0, 2).Draw(rt, "reload") == 0 {
+			s.Reload = append(s.Reload, u)
+		}
 	}
 	return s
 }
@@ -824,9 +891,12 @@ func (r vfC18Rev) body() Body {
 // load pushes every revision of the corpus with its given id (as a replicating peer would).
 // fn is the function the database runs; a revision the model says fn rejects must be answered 403
 // and is then absent, anything else is a harness problem.
-func (d *vfC18DB) load(s *vfC18Spec, fn vfC18Fn) error {
+func (d *vfC18DB) load(s *vfC18Spec, fn vfC18Fn, late bool) error {
 	for _, doc := range s.Docs {
 		for _, r := range doc.Revs {
+			if r.Late != late {
+				continue
+			}
 			_, got, err := d.coll.PutExistingRevWithBody(d.ctx, doc.ID, r.body(), doc.history(r.ID), false, ExistingVersionWithUpdateToHLV)
 			wantReject := fn.eval(r).Rejected
 			if err != nil {
@@ -848,12 +918,12 @@ func (d *vfC18DB) load(s *vfC18Spec, fn vfC18Fn) error {
 }
 
 // touchUsers loads every user once so that its computed access is persisted (as after a request).
-func (d *vfC18DB) touchUsers(s *vfC18Spec) error {
+func (d *vfC18DB) touchUsers(names []string) error {
 	a := d.dbc.Authenticator(d.ctx)
-	for _, u := range s.Users {
-		usr, err := a.GetUser(u.Name)
+	for _, name := range names {
+		usr, err := a.GetUser(name)
 		if err != nil || usr == nil {
-			return fmt.Errorf("GetUser(%s): %v", u.Name, err)
+			return fmt.Errorf("GetUser(%s): %v", name, err)
 		}
 		if _, err := usr.InheritedCollectionChannels(d.scope, d.cname); err != nil {
 			return err
@@ -1076,10 +1146,20 @@ func vfC18Execute(t testing.TB, s *vfC18Spec) (res vfC18Result, err error) {
 	if err = d1.createPrincipals(s); err != nil {
 		return res, err
 	}
-	if err = d1.load(s, s.A); err != nil {
+	if err = d1.load(s, s.A, false); err != nil {
 		return res, err
 	}
-	if err = d1.touchUsers(s); err != nil {
+	var all []string
+	for _, u := range s.Users {
+		all = append(all, u.Name)
+	}
+	if err = d1.touchUsers(all); err != nil {
+		return res, err
+	}
+	if err = d1.load(s, s.A, true); err != nil {
+		return res, err
+	}
+	if err = d1.touchUsers(s.Reload); err != nil {
 		return res, err
 	}
 	lap("d1 principals+load+touch")
@@ -1116,7 +1196,10 @@ func vfC18Execute(t testing.TB, s *vfC18Spec) (res vfC18Result, err error) {
 	if err = d2.createPrincipals(s); err != nil {
 		return res, err
 	}
-	if err = d2.load(s, s.B); err != nil {
+	if err = d2.load(s, s.B, false); err != nil {
+		return res, err
+	}
+	if err = d2.load(s, s.B, true); err != nil {
 		return res, err
 	}
 	o2, err := d2.observe(s)
